@@ -183,6 +183,9 @@ def run_case(case):
                 (what, len(desc.get('resources', [])), len(tables)), 'descriptor_resources')
     modes = [('kill', k) for k in ks] + [('raise', k) for k in ks
                                          if k <= K and not big and (k % 3 == 0 or case['tier'] == 'thorough')]
+    # persistent faults (every later operation on the same file fails too) at the events that touch output files
+    modes += [('raise_persistent', k) for k in ks if k <= K and not big and trace[k - 1][0].startswith(('copy', 'audit'))
+              and (k % 2 == 0 or case['tier'] == 'thorough')]
     for mode, k in modes:
         out = '%s%d' % (mode[0], k)
 
@@ -195,7 +198,7 @@ def run_case(case):
         code, rep = crashlab.in_child(crash, os.path.join(scratch, 'rep.json'))
         ev = trace[k - 1][0] if k <= K else 'after_last'
         what = '%s before event %d/%d (%s %s)' % (mode, k, K, ev, trace[k - 1][1] if k <= K else '')
-        if mode == 'raise':
+        if mode in ('raise', 'raise_persistent'):
             if not (rep and rep.get('fired')):
                 continue        # not reached in this run (nondeterministic trace): not counted
         elif k <= K and code != 137:
